@@ -24,7 +24,7 @@ for d in sorted(glob.glob(os.path.join(ROOT, 'seeded', 'C??-?'))):
     demo_wo = sec.get('demo WITHOUT the change', '')
     demo_w = sec.get('demo WITH the change', '')
     def verdict(txt):
-        if re.search(r'^(--- FAIL|FAIL|panic:|fatal error|RESULT: WRONG)', txt, re.M): return 'fails'
+        if re.search(r'^(--- FAIL|FAIL|panic:|fatal error|RESULT: WRONG|goroutine \d+ )', txt, re.M): return 'fails'
         if re.search(r'^(ok|PASS|--- PASS|RESULT: OK)', txt, re.M): return 'passes'
         return 'unclear'
     checks = []
